@@ -350,7 +350,7 @@ func baseSelect(L *LState) int {
 		}
 		return num - idx
 	case LString:
-		if string(lv) != "#" {
+		if len(lv) == 0 || lv[0] != '#' { // luaB_select only looks at the first character
 			L.ArgError(1, "invalid string '"+string(lv)+"'")
 		}
 		L.Push(LNumber(L.GetTop() - 1))
